@@ -1,5 +1,6 @@
 // c14_common.hpp - total-order / equivalence / hash oracle over a finite value set S = A^n.
 #pragma once
+#include <locale>
 #include <set>
 #include <unordered_set>
 
@@ -127,6 +128,23 @@ void check_type(const std::string& name, MK&& mk, GET&& get, int part, int npart
     bool ok = os.size() == ref.size() && us.size() == ref.size();
     for (auto& x : S) ok = ok && os.count(x) == 1 && us.count(x) == 1;
     vf::stat("container_round_trips");
+    // the hash is a function of the stored value only: the same after the global locale was changed to one with a comma as
+    // decimal point and digit grouping (a hash computed from printed text changes here), and through a copy of the object
+    {
+      struct Comma : std::numpunct<char> {
+        char do_decimal_point() const override { return ','; }
+        char do_thousands_sep() const override { return '.'; }
+        std::string do_grouping() const override { return "\3"; }
+      };
+      std::vector<size_t> before;
+      for (auto& x : S) before.push_back(H(x));
+      const std::locale old = std::locale::global(std::locale(std::locale::classic(), new Comma));
+      bool same = true;
+      for (size_t i = 0; i < S.size(); i++) same = same && H(S[i]) == before[i] && H(X(S[i])) == before[i];
+      std::locale::global(old);
+      vf::stat("hashes_recomputed_under_another_locale", (long long)S.size());
+      if (!same) vf::viol("hash-depends-on-global-locale|" + name + "|" + vf::TName<T>::value, "{\"type\":" + vf::jstr(name) + "}");
+    }
     vf::stat("container_elements", (long long)S.size());
     if (!ok)
       vf::viol("containers|" + name + "|" + vf::TName<T>::value, "{\"type\":" + vf::jstr(name) + ",\"elements\":" + std::to_string(S.size()) + ",\"equivalence_classes\":" +
